@@ -188,8 +188,11 @@ pub fn native_minmax<T, const LESS: bool>(
                             max_key = key;
                         }
                     }
-                    let k = t.nth_key(i);
-                    let v = *t.get(&k).unwrap();
+                    // `i` counts the rows `iter` yields; it skips rows whose key can not be looked up
+                    // again (NaN is not equal to itself)
+                    let Some((k, v)) = t.iter().nth(i).map(|(k, v)| (*k, *v)) else {
+                        return Ok(Value::Nil);
+                    };
                     let mut result = vm.init_table()?;
                     let t = result.0.as_mut().as_table_mut().unwrap();
                     t.insert(vm.init_string("key")?, k)?;
